@@ -30,6 +30,23 @@ STRENGTHENED = {
  "C16b-m2": "nested unions (inner plain union under a blended outer one; inner blend set after the outer was built) against the fold over the operands passed",
  "C16b-m3": "belongs to C10 (concurrent Evaluate): caught by ./check C10",
  "C02b-m3": "belongs to C18 (screw periodicity for multi-start threads): caught by ./check C18",
+ "C04b-m2": "absolute scale as a generated dimension of the polygon strata (1e-6..1e6) and facetted discs with 500-2000 very short edges",
+ "C05b-m3": "render histories in one process (fine, then coarser renders of other shapes and sizes; recurring pairs compared bit for bit)",
+ "C06b-m2": "mcInterpolate correspondence with end values log-uniform in 1e-13..1e-3; scale strata (1e-5..1e3); planes 1e-9..1e-6 off a lattice layer",
+ "C06b-m3": "non-cubic lattices (all 6 orderings of three different extents); a panic inside a render is a failing input",
+ "C09b-m1": "fresh process per GOMAXPROCS in 1,2,3,8,16; 2D renders at 100-400 cells compared as exact segment sequences",
+ "C09b-m2": "file histories for all eight writers (render over a longer / equal / shorter pre-existing file vs a fresh path)",
+ "C09b-m3": "octree renders at 33-128 cells compared as exact triangle sequences and STL bytes across processes and repetitions",
+ "C11b-m2": "scripted segment streams (end-to-end collinear unit steps, reversed, overlapping, repeated, zero-length) through every 2D sink; also caught by C15's new collinear chains",
+ "C12b-m1": "one-process histories: warm-up, the same failing call 40 times, then good calls of every entry point",
+ "C12b-m2": "goroutine counts over histories of failing renders for every writer x failure kind (/dev/full, RLIMIT_FSIZE at several offsets, create failures)",
+ "C14b-m1": "long-line files (64 KiB-1 .. 3 MiB, three layouts) under a per-file watchdog; not returning is a failing input",
+ "C15b-m2": "DXF drawing-object operation histories (Line/Lines/Points/Triangle/Box in any order) against a fold_left model (Io/ExportOps.v, two new theorems)",
+ "C17b-m2": "closed Bezier curves whose control points coincide with end points (last Mid on the first vertex, teardrops)",
+ "C17b-m3": "multi-arc polygons (stadium, lens, scalloped, ring; 2-6 arcs, arcs late in the list) with a per-arc oracle",
+ "C18b-m1": "generator histories: database snapshot bit-identical after every obj generator call, and re-compared with the translated table",
+ "C19b-m2": "V2 vertex solver called through a hook on singular / rank-deficient / scaled plane systems, bit-exact against a float model (Geo/DCSolve.v); renders with CenterPush = 0 and other knob settings",
+ "C19b-m3": "non-Lipschitz sign-correct fields (shrinking scales, fast twists, strong tapers) and a cell-exhaustive reference (one quad per sign-changing edge)",
 }
 rows = []
 for f in sorted(glob.glob(os.path.join(V, "seeded", "*", "meta.json"))):
